@@ -3,7 +3,7 @@
    model field : what the harness must print (tokens of the reader's outputs, number of recvmsg calls, stream position)
    spec field  : what the property demands (all messages, in order, byte-identical, own descriptors, 1,2,3,...;
                  or, for a unit declaring more than 128 MiB, rejection after exactly its 16 header bytes); "-" otherwise
-   class       : leftover_fd when the case is in the known class Known_C14 *)
+   class       : none (the former class leftover_fd is fixed by e5b20c34) *)
 From ZV Require Import Base.Bytes Base.Res C14.Model C14.Spec.
 Open Scope N_scope.
 
@@ -130,12 +130,6 @@ Definition spec_field (ms : list smsg) (cut : nat) (script : list ans) : bytes :
       else dash
   end.
 
-Definition class_field (ms : list smsg) (cut : nat) : bytes :=
-  match valid_prefix ms with
-  | (_, []) => if known_c14 ms cut then B "leftover_fd" else dash
-  | _ => dash
-  end.
-
 Definition run_case (line : bytes) : outp :=
   match words_fast line with
   | f :: mode :: cut :: script :: units =>
@@ -149,7 +143,7 @@ Definition run_case (line : bytes) : outp :=
           let (outs, st) := run_reader std_fields (oracle_of sc) w c in
           {| o_model := render_obs (lbeq mode (B "c")) outs (N.of_nat (calls st)) (lenN w - lenN (strm st));
              o_spec := spec_field ms c sc;
-             o_class := class_field ms c |}
+             o_class := dash |}
       | _, _, _ => bad_case
       end
   | _ => bad_case
